@@ -1,0 +1,9 @@
+// Copyright IBM Corp. 2020, 2025
+// SPDX-License-Identifier: MPL-2.0
+
+//go:build !verif
+
+package wal
+
+// verifYield is a no-op unless built with the `verif` tag.
+func verifYield(string) {}
